@@ -81,7 +81,10 @@ unsigned int get_rex_prefix(struct instr *all_instr, struct operand *m,
   }
   if (all_instr->keyword.is_keyword)
     overide_opd_size(all_instr, &rm);
-  else if (!(rm & reg_none) && !(rm & MODE_MASK) && rm >= spl)
+  // spl, bpl, sil and dil need a REX prefix, also with a size keyword in front
+  // of them (the address register of a memory operand is never 8 bits wide)
+  if (m->type != 'm' && !(m->reg & reg_none) && !(m->reg & MODE_MASK) &&
+      m->reg >= spl)
     rex_prefix |= rex_;
   if (!(r->reg & reg_none) && !(r->reg & MODE_MASK) && r->reg >= spl)
     rex_prefix |= rex_;
